@@ -107,7 +107,7 @@ theorem inv_step (c : Cfg) (s : St) (o : Op) (h : Inv c s) : Inv c (step c s o).
   | lookup n => exact h
   | span path key env ds data =>
     simp only [step]
-    cases hr : routeSpan c path key env ds data with
+    cases hr : routeSpan (cur c s) path key env ds data with
     | nosampler => exact h
     | nothing => exact h
     | panic => exact h
@@ -130,7 +130,9 @@ theorem inv_step (c : Cfg) (s : St) (o : Op) (h : Inv c s) : Inv c (step c s o).
         · simp only [ht, if_false] at hg
           exact h tid' t' hg
   | decide tid =>
-    simp only [step]
+    by_cases hdft : AList.get (curRules c s) defaultName = none
+    · simp only [step, hdft, if_true]; exact h
+    simp only [step, hdft, if_false]
     cases hg : AList.get s.traces tid with
     | none => exact h
     | some t =>
@@ -141,6 +143,9 @@ theorem inv_step (c : Cfg) (s : St) (o : Op) (h : Inv c s) : Inv c (step c s o).
       · simp [ht] at hg'
       · simp only [ht, if_false] at hg'
         exact h tid' t' hg'
+  | reload r =>
+    simp only [step]
+    split <;> exact h
 
 theorem inv_run (c : Cfg) (ops : List Op) : Inv c (run c ops) := by
   unfold run
@@ -173,7 +178,7 @@ theorem route_span_pay {c : Cfg} {path : Path} {key : Str} {env : Option Str} {d
             exact ⟨skf, by rw [← h.2]; rfl⟩
 
 theorem spans_inv (c : Cfg) (P : SpanSt → Prop)
-    (hP : ∀ path key env ds data tid sp, routeSpan c path key env ds data = .span tid sp → P sp)
+    (hP : ∀ r path key env ds data tid sp, routeSpan { c with rules := r } path key env ds data = .span tid sp → P sp)
     (ops : List Op) : ∀ tid t, AList.get (run c ops).traces tid = some t → ∀ sp ∈ t.spans, P sp := by
   unfold run
   have : ∀ (s : St), (∀ tid t, AList.get s.traces tid = some t → ∀ sp ∈ t.spans, P sp) →
@@ -189,7 +194,7 @@ theorem spans_inv (c : Cfg) (P : SpanSt → Prop)
       | lookup n => exact hs
       | span path key env ds data =>
         simp only [step]
-        cases hr : routeSpan c path key env ds data with
+        cases hr : routeSpan (cur c s) path key env ds data with
         | nosampler => exact hs
         | nothing => exact hs
         | panic => exact hs
@@ -210,11 +215,13 @@ theorem spans_inv (c : Cfg) (P : SpanSt → Prop)
               · cases hgt : AList.get s.traces tid with
                 | none => rw [← ht] at hx; simp [hgt] at hx
                 | some t => rw [← ht] at hx; simp only [hgt] at hx; exact hs tid t hgt x hx
-              · exact hP _ _ _ _ _ _ _ hr
+              · exact hP _ _ _ _ _ _ _ _ hr
             · simp only [ht, if_false] at hg
               exact hs tid' t' hg x hx
       | decide tid =>
-        simp only [step]
+        by_cases hdft : AList.get (curRules c s) defaultName = none
+        · simp only [step, hdft, if_true]; exact hs
+        simp only [step, hdft, if_false]
         cases hg : AList.get s.traces tid with
         | none => exact hs
         | some t =>
@@ -225,6 +232,9 @@ theorem spans_inv (c : Cfg) (P : SpanSt → Prop)
           · simp [ht] at hg'
           · simp only [ht, if_false] at hg'
             exact hs tid' t' hg'
+      | reload r =>
+        simp only [step]
+        split <;> exact hs
   exact this {} (by intro tid t h; simp at h)
 
 
